@@ -122,7 +122,7 @@ def mask_events(u, U, tag='mask', pure=False, hide='none', sample_hide=1.0, seed
     return gen
 
 
-def forwards_events(u, UO, UI, tag='fwd', pure=False, sample=1.0, seed=0, hide=False):
+def forwards_events(u, UO, ui, UI, tag='fwd', pure=False, sample=1.0, seed=0, hide=False):
     """outer in UO (star-bearing), inner in UI, n in 0..2, names <= 1, the four use flags, partial"""
     from sigtools import signatures
 
@@ -141,7 +141,7 @@ def forwards_events(u, UO, UI, tag='fwd', pure=False, sample=1.0, seed=0, hide=F
                                     if sample < 1.0 and rnd.random() >= sample:
                                         continue
                                     if _mine(k, shard, nshards):
-                                        a, b = u.sig(i, 1), u.sig(j, 2)
+                                        a, b = u.sig(i, 1), ui.sig(j, 2)
                                         fl = flags(n=n, names=names, uva=uva, uvk=uvk, partial=partial, **h)
                                         yield event(u, '%s/%d-%d-%d-%s-%d%d%d-%d%d' % (tag, i, j, n, '.'.join(names), uva, uvk, partial, h['ha'], h['hk']),
                                                     'forwards', [a, b], lambda: algebra.apply_op('forwards', [a, b], fl), fl=fl, pure=pure,
